@@ -157,6 +157,7 @@ class PackingMonitor:
             return post
 
         for cls, name in ((E1, "ibf1"), (E2, "ibf2")):
+            cls._verif_orig_decode = cls.decode   # for multi-thread drivers
             cls.decode = icontract.ensure(
                 mk_decode(name), error=ContractBroken)(cls.decode)
         if objectives:
